@@ -281,7 +281,7 @@ def extra_stage(tier, rng, work):
     # part 2: receiver-side credit (padded DATA, exact client ledger of both windows) and the backend's
     # MAX_CONCURRENT_STREAMS (cancelled request, limit lowered to 0 on an idle connection, burst of requests
     # attached while the backend was still connecting); the scripted backend keeps the RFC 9113 5.1 stream states
-    runs2 = [["pad", "600", "10", "255"], ["cancel"], ["mcs0"], ["burst", "4"]]
+    runs2 = [["pad", "600", "10", "255"], ["tiny", "6000", "10", "255"], ["shrink"], ["cancel"], ["mcs0"], ["burst", "4"]]
     if tier == "thorough":
         runs2 += [["pad", "300", "1", "255"], ["pad", "200", "16000", "100"], ["burst", "8"]]
     for a in runs2:
